@@ -420,13 +420,13 @@ Fixpoint fill (n : nat) (v : N) : bytes :=
 Definition sx_body (s : sx) : option bytes :=
   match s with
   | SB b => Some b
-  | SL [SZ l; SZ seed] => Some (fill (Z.to_nat l) (Z.to_N seed))
+  | SL [SZ l; SZ seed] => if (l <=? 16777216)%Z then Some (fill (Z.to_nat l) (Z.to_N seed)) else None
   | _ => None
   end.
 Definition sx_body_len (s : sx) : option N :=
   match s with
   | SB b => Some (lenN b)
-  | SL [SZ l; SZ _] => Some (Z.to_N l)
+  | SL [SZ l; SZ _] => if (l <? 16777216)%Z then Some (Z.to_N l) else None   (* as the harness: < 2^24 *)
   | _ => None
   end.
 
@@ -559,9 +559,12 @@ Definition run_rtmp_read (hs : bool) (ms : list rmsg) (term : N) (mode : Z)
    (9 kind tid named sid arg seed): WritePacket of the packet described above *)
 Definition sx_wop (x : sx) : option (wentry * rmsg) :=
   match x with
-  | SL [SZ 9%Z; SZ kind; SZ tid; SZ named; SZ _; SZ arg; SZ _] =>
+  | SL [SZ 9%Z; SZ kind; SZ tid; SZ named; SZ sid; SZ arg; SZ seed] =>
       let k := Z.to_N kind in
-      if (k <=? 10)%N then
+      let u32 := fun z => (0 <=? z)%Z && (z <=? 4294967295)%Z in
+      (* the ranges the harness accepts *)
+      if (0 <=? kind)%Z && (k <=? 10)%N && (0 <=? tid)%Z && (tid <=? 65535)%Z && u32 named && u32 sid && u32 arg &&
+         ((6 <? k)%N || (arg <=? 65000)%Z) && (0 <=? seed)%Z && (seed <=? 2147483647)%Z then
         Some (ViaPacket k (Z.to_N tid) (zbool named), pkt_msg k (Z.to_N tid) (zbool named) (Z.to_N arg))
       else None
   | _ => match sx_rmsg x with Some m => Some (ViaMessage, m) | None => None end
